@@ -69,7 +69,7 @@ def write_ops(counts=False):
     return st.one_of(*base)
 
 
-def histories(kind="any", counts=False, max_size=4):
+def histories(kind="any", counts=False, max_size=4, poke=False):
     if kind == "read":
         el = read_ops()
     elif kind == "write":
@@ -77,17 +77,32 @@ def histories(kind="any", counts=False, max_size=4):
     else:
         el = st.one_of(read_ops(), write_ops(counts))
     body = st.lists(el, min_size=0, max_size=max_size)
+    # the last step decides the internal layout the operation under test
+    # finds: a per-sample read leaves CSC, a per-observation read CSR, a
+    # reordering leaves unsorted indices / a re-built index
+    layout = [st.builds(lambda a, i: [{"op": "data", "axis": a, "i": i}],
+                        st.just("sample"), st.integers(0, 7)),
+              st.builds(lambda a: [{"op": "iter", "axis": a}],
+                        st.just("sample")),
+              st.builds(lambda a, i: [{"op": "data", "axis": a, "i": i}],
+                        st.just("observation"), st.integers(0, 7))]
     if kind == "read":
         tail = st.one_of(
-            st.just([]), st.just([]),
+            st.just([]), st.just([]), *layout,
             st.builds(lambda a, k: [{"op": "sort_rt", "axis": a, "key": k}],
                       AX, KEY))
     else:
-        # a final reordering leaves unsorted indices / a re-built index behind
         tail = st.one_of(
-            st.just([]), st.just([]),
+            st.just([]), st.just([]), *layout,
             st.builds(lambda a, k: [{"op": "sort", "axis": a, "key": k}],
                       AX, KEY))
+    if poke:
+        # the caller zeroes a stored entry of the live matrix in place
+        # (`table.matrix_data.data[k] = 0`): an explicitly stored zero
+        zp = st.one_of(st.just([]), st.just([]), st.builds(
+            lambda k: [{"op": "store_zero", "k": k}], st.integers(0, 30)))
+        return st.tuples(body, tail, zp).map(
+            lambda bt: bt[0] + bt[1] + bt[2])
     return st.tuples(body, tail).map(lambda bt: bt[0] + bt[1])
 
 
@@ -181,6 +196,12 @@ def apply_op(t, op):
         def g(v, i, md):
             return np.where(v == v.max(), 0.0, v) if v.size > 1 else v
         return t.transform(g, axis=op["axis"], inplace=op["inplace"])
+    if name == "store_zero":
+        m = t.matrix_data
+        if m.format not in ("csr", "csc") or m.data.size == 0:
+            raise _Skip()
+        m.data[op["k"] % m.data.size] = 0.0
+        return t
     if name == "rename":
         ids = list(t.ids(axis=op["axis"]))
         return t.update_ids({i: i + op["suffix"] for i in ids},
